@@ -612,6 +612,71 @@ static void fixed(void) {
   if (len(t) != 3 || get(t, $I(0)) != a || get(t, $I(1)) != b || get(t, $I(2)) != c) { vh_violation("C19:pop_at:stack-Tuple:object-changed", "stack tuple has len %zu after the refused pop_at", len(t)); }
 }
 
+/* ---------- stack objects ($, alloc_stack): size(type) bytes of each are its own ----------
+** Statically declared plain types of sizes that are and are not multiples of a word, several objects of them in one
+** frame between two stack Ints.  Every byte of every object is written; afterwards every header still names the true
+** type and the stack allocation class, and every object still holds its own bytes (ASan watches the writes). */
+struct St1 { unsigned char b[1]; };   struct St3 { unsigned char b[3]; };   struct St8 { unsigned char b[8]; };
+struct St12 { float x, y, z; };       struct St15 { unsigned char b[15]; }; struct St20 { unsigned char b[20]; };
+struct St33 { unsigned char b[33]; };
+static var St1 = Cello(St1); static var St3 = Cello(St3); static var St8 = Cello(St8); static var St12 = Cello(St12);
+static var St15 = Cello(St15); static var St20 = Cello(St20); static var St33 = Cello(St33);
+
+/* (the objects are made by plain expression statements at function scope: a compound literal lives as long as the block
+   it appears in, so neither a do-while wrapper nor an if branch may enclose the allocation) */
+#define STK(T) (obj[n] = alloc_stack(T), typ[n] = T, sz[n] = sizeof(struct T), n++)
+#define LIT(T) (obj[n] = $(T, {{0}}), typ[n] = T, sz[n] = sizeof(struct T), n++)
+enum { NOBJ = 14 };
+static void check_stack_objects(var* obj, var* typ, size_t* sz, int n, var g0, var g1) {
+  for (int i = 0; i < n; i++) {
+    vh_eval();
+    if (size(typ[i]) != sz[i]) { vh_violation(K("stack-object-size", "size"), "size(%s) is %zu, the struct has %zu bytes", c_str(typ[i]), size(typ[i]), sz[i]); }
+    memset(obj[i], 0xA0 + i, size(typ[i]));
+  }
+  for (int i = 0; i < n; i++) {
+    vh_evals(2);
+    struct Header* h = header(obj[i]);
+    if (h->type != typ[i] || h->alloc != (var)AllocStack) {
+      vh_violation(K("stack-object-header-overwritten-by-a-neighbour", "$"), "stack object %d (%s, %zu bytes) of a frame of %d: its header no longer names its type and allocation class after all size(type) bytes of its neighbours were written", i, c_str(typ[i]), sz[i], n);
+      return;
+    }
+    if (type_of(obj[i]) != typ[i]) { vh_violation(K("stack-object-wrong-type", "$"), "type_of gives %s for a stack %s", c_str(type_of(obj[i])), c_str(typ[i])); return; }
+    for (size_t k = 0; k < sz[i]; k++) {
+      if (((unsigned char*)obj[i])[k] != (unsigned char)(0xA0 + i)) {
+        vh_violation(K("stack-object-bytes-overwritten-by-a-neighbour", "$"), "stack object %d (%s): byte %zu of its %zu is 0x%02x after its neighbours were written", i, c_str(typ[i]), k, sz[i], ((unsigned char*)obj[i])[k]);
+        return;
+      }
+    }
+  }
+  vh_evals(2);
+  if (type_of(g0) != Int || c_int(g0) != 1111 || type_of(g1) != Int || c_int(g1) != 2222) { vh_violation(K("stack-object-bytes-overwritten-by-a-neighbour", "$"), "a stack Int next to stack objects of odd sizes changed"); }
+  vh_count_n("stack_objects_of_sized_types_written_in_full", (uint64_t)n);
+}
+static void __attribute__((noinline)) stack_object_frame0(void) {
+  var obj[NOBJ]; var typ[NOBJ]; size_t sz[NOBJ]; int n = 0;
+  var g0 = $I(1111);
+  STK(St12); STK(St12); STK(St12); STK(St12); LIT(St15); LIT(St15); LIT(St15); STK(St3); STK(St1); STK(St1); LIT(St20); STK(St33); STK(St8); LIT(St3);
+  var g1 = $I(2222);
+  check_stack_objects(obj, typ, sz, n, g0, g1);
+}
+static void __attribute__((noinline)) stack_object_frame1(void) {
+  var obj[NOBJ]; var typ[NOBJ]; size_t sz[NOBJ]; int n = 0;
+  var g0 = $I(1111);
+  LIT(St1); STK(St3); LIT(St12); STK(St15); LIT(St20); STK(St33); LIT(St8); STK(St1); LIT(St3); STK(St12); LIT(St15); STK(St20); LIT(St33); STK(St8);
+  var g1 = $I(2222);
+  check_stack_objects(obj, typ, sz, n, g0, g1);
+}
+static void __attribute__((noinline)) stack_object_frame2(void) {
+  var obj[NOBJ]; var typ[NOBJ]; size_t sz[NOBJ]; int n = 0;
+  var g0 = $I(1111);
+  STK(St33); STK(St20); STK(St15); STK(St12); STK(St8); STK(St3); STK(St1); LIT(St33); LIT(St20); LIT(St15); LIT(St12); LIT(St8); LIT(St3); LIT(St1);
+  var g1 = $I(2222);
+  check_stack_objects(obj, typ, sz, n, g0, g1);
+}
+#undef STK
+#undef LIT
+static void stack_object_frame(int variant) { if (variant == 0) { stack_object_frame0(); } else if (variant == 1) { stack_object_frame1(); } else { stack_object_frame2(); } }
+
 static void case_random(vh_rng* r, long index) {
   size_t n = 1 + vh_below(r, 90);
   vh_op("enumeration at container size %zu", n);
@@ -620,6 +685,7 @@ static void case_random(vh_rng* r, long index) {
   sized_sequences(r, 1 + vh_below(r, 60));
   iterator_results_after_edits(r, n);
   empty_sources(r); empty_sources(r);
+  stack_object_frame((int)(index % 3));
   if (index % 4 == 0) { run_fresh_thread(); }
   vh_nontrivial();
 }
